@@ -131,6 +131,171 @@ def plan_C01(tier, seed):
     }
 
 
+def hlc_bars(levels=(1, 2, 4), vols=(1,)):
+    """every bar with low <= close <= high over the given price levels (open = close)"""
+    out = []
+    for h in levels:
+        for l in levels:
+            for c in levels:
+                if l <= c <= h:
+                    for v in vols:
+                        out.append(bar(h, l, c, v=v))
+    return out
+
+
+COMMON_ASSUME = [
+    "expected values are exact rationals computed by TLC on integer lattice prices; the real crate is fed the affine image a*k+b of the lattice",
+    "inputs are affine images of small-integer lattices, not arbitrary doubles",
+    "TLC, the CommunityModules Json module and serde_json are trusted",
+]
+
+
+def plan_C02(tier, seed):
+    q = tier == "quick"
+    rng = random.Random(seed * 104729 + 2)
+    jobs = []
+    bars = hlc_bars()
+    inv = ("Refines", "Safe", "NonNeg", "EmaLemma", "EmaConvex")
+    for n in (1, 2, 3, 4, 5, 7):
+        jobs.append(closed("EMA_n%d" % n, "EMA", n, salpha=A5, maxdepth=(6 if q else 8), invariants=inv))
+    jobs.append(closed("TR_s", "TR", 1, salpha=A5, maxdepth=5, invariants=inv))
+    jobs.append(closed("TR_b", "TR", 1, balpha=bars, maxdepth=(4 if q else 5), invariants=inv))
+    for n in (1, 2, 3, 5):
+        jobs.append(closed("ATR_b_n%d" % n, "ATR", n, balpha=bars, maxdepth=(4 if q else 6), invariants=inv))
+        jobs.append(closed("ATR_s_n%d" % n, "ATR", n, salpha=A5, maxdepth=(5 if q else 7), invariants=inv))
+    triples = [(f, s_, g) for f in (1, 2, 3, 5) for s_ in (1, 2, 3, 5) for g in (1, 2, 3, 5)]
+    if q:
+        fixed = [(1, 1, 1), (3, 3, 2), (5, 2, 3), (2, 5, 1), (1, 3, 3), (3, 1, 5)]
+        triples = fixed + rng.sample([t for t in triples if t not in fixed], 6)
+    for (f, s_, g) in triples:
+        jobs.append(closed("MACD_%d_%d_%d" % (f, s_, g), "MACD", f, n2=s_, n3=g, salpha=A5, maxdepth=(5 if q else 6), invariants=inv))
+    for k, n in enumerate((1, 2, 3, 4)):
+        for j, m in enumerate(MULTS if not q else [MULTS[k % 5], MULTS[(k + 2) % 5]]):
+            jobs.append(closed("KC_s_n%d_m%d" % (n, j), "KC", n, m=m, salpha=A5, maxdepth=(5 if q else 6), invariants=inv))
+            jobs.append(closed("KC_b_n%d_m%d" % (n, j), "KC", n, m=m, balpha=bars, maxdepth=(4 if q else 5), invariants=inv))
+            jobs.append(closed("CE_n%d_m%d" % (n, j), "CE", n, m=m, balpha=bars, maxdepth=(4 if q else 5), invariants=inv))
+    # large periods: the first steps pin the seeding and alpha = 2/(n+1); TLC's exact depth is short there
+    bigs = [14, 26, 100, 1024] + [rng.randint(6, 2000) for _ in range(2 if q else 10)]
+    for n in bigs:
+        for kind in ("EMA", "ATR", "MACD", "KC", "CE"):
+            xs = stream_patterns(rng, 40, 1, 9, lively=True)
+            if kind in ("ATR", "KC", "CE") and rng.random() < 0.7 or kind == "CE":
+                bs = [rng.choice(hlc_bars((1, 2, 3, 5, 8))) for _ in xs]
+                ops = [b_op(1, b) for b in bs]
+            else:
+                ops = [s_op(1, x) for x in xs]
+            c = cfg(kind, n, n2=rng.choice([n, 2 * n + 1, max(1, n // 2)]), n3=rng.choice([1, 9, n]), m=rng.choice(MULTS))
+            jobs.append(scripted("%s_big_n%d" % (kind, n), {1: c}, [new_op(1)] + ops, noovf=False, invariants=inv))
+    # long recursions: value checks while the exact rational fits, the restart equivalence at every step after
+    for rep in range(3 if q else 8):
+        n = rng.choice([1, 2, 3, 5, 9, 14, 26, 100])
+        length = 9000 if q else 30000
+        xs = stream_patterns(rng, length, -9, 9, lively=True)
+        jobs.append(scripted("EMA_long%d_n%d" % (rep, n), {1: cfg("EMA", n)}, [new_op(1)] + [s_op(1, x) for x in xs], noovf=False, invariants=inv))
+    return {
+        "jobs": jobs, "parallel": 12,
+        "rule": "depth-bounded exhaustive TaSystem models (all input sequences over the alphabet while the exact rational fits 32 bits) for "
+                "EMA, TR, ATR, MACD, KC, CE over periods {1..5,7}, period triples from {1,2,3,5}^3 and multipliers {2,1/2,0,3,-1}; scalar "
+                "alphabet {-2..2}, bar alphabet = all bars low<=close<=high over three price levels (every TrueRange branch in every order); "
+                "one behaviour per transition; large periods on scripted streams; long recursions checked by the restart equivalence "
+                "(spec lemma: the reference state of an EMA is its last output) at every step of runs of 9 000-30 000 inputs",
+        "assumptions": COMMON_ASSUME + ["beyond the exact depth of the 32-bit rationals (>= 8 steps for periods <= 5, 2 steps at period 1024) an EMA's "
+                                        "value is checked relationally (restart equivalence, C15 wiring, C09 bounds), not against an exact value"],
+    }
+
+
+# nine valid bars in which close differs from (high+low)/2, typical prices repeat across different bars
+# (equal neighbours) and volume takes 0, 1, 2 -- so typical price, close and the direction test are distinguishable
+OSC_BARS = [bar(2, 1, 1, v=1), bar(2, 1, 2, v=0), bar(3, 1, 3, v=2), bar(3, 2, 2, v=1), bar(3, 1, 1, v=2),
+            bar(1, 1, 1, v=1), bar(2, 2, 2, v=0), bar(3, 3, 3, v=2), bar(3, 2, 3, v=1)]
+
+
+def rand_bar(rng, lo=1, hi=9, vmax=3):
+    a, b, c = sorted(rng.randint(lo, hi) for _ in range(3))
+    return bar(c, a, b, o=rng.randint(a, c), v=rng.randint(0, vmax))
+
+
+def rand_bars(rng, length, lo=1, hi=9, vmax=3):
+    """valid bars, with runs of equal typical price, zero volume and gaps"""
+    out = []
+    while len(out) < length:
+        r = rng.random()
+        if r < 0.12:
+            b = rand_bar(rng, lo, hi, vmax)
+            out += [dict(b, v=rng.randint(0, vmax)) for _ in range(rng.randint(2, 4))]     # same prices, other volume
+        elif r < 0.2:
+            out += [dict(rand_bar(rng, lo, hi, vmax), v=0) for _ in range(rng.randint(1, 5))]  # zero-volume moves
+        else:
+            out.append(rand_bar(rng, lo, hi, vmax))
+    return out[:length]
+
+
+BAR_ONLY = ("CE", "CCI", "MFI", "OBV")
+OSC = ["RSI", "FAST_STOCH", "SLOW_STOCH", "ROC", "ER", "PPO", "CCI", "MFI", "OBV"]
+
+
+def plan_C03(tier, seed):
+    q = tier == "quick"
+    rng = random.Random(seed * 15485863 + 3)
+    jobs = []
+    inv = ("Refines", "Safe", "InRange", "NonNeg")
+    hb = hlc_bars()
+    for n in (1, 2, 3, 4, 5):
+        for k, sd in enumerate([Fr(1, 10), Fr(1, 5), Fr(1), Fr(1, 100)] if not q else [Fr(1, 10), [Fr(1, 5), Fr(1), Fr(1, 100)][n % 3]]):
+            jobs.append(closed("RSI_n%d_s%d" % (n, k), "RSI", n, seed=sd, salpha=P3, maxdepth=(7 if q else 9), invariants=inv))
+        jobs.append(closed("FS_s_n%d" % n, "FAST_STOCH", n, salpha=P3, invariants=inv))
+        jobs.append(closed("FS_b_n%d" % n, "FAST_STOCH", n, balpha=hb, maxdepth=(100 if n <= 3 else 6), invariants=inv))
+        jobs.append(closed("ROC_n%d" % n, "ROC", n, salpha=P3, invariants=inv))
+        jobs.append(closed("ER_n%d" % n, "ER", n, salpha=P3, invariants=inv))
+        if n <= (3 if q else 4):
+            jobs.append(closed("CCI_n%d" % n, "CCI", n, balpha=OSC_BARS, invariants=inv))
+        if n <= (2 if q else 3):
+            jobs.append(closed("MFI_n%d" % n, "MFI", n, balpha=OSC_BARS, invariants=inv))
+        elif n <= 4:
+            jobs.append(closed("MFI_n%d" % n, "MFI", n, balpha=OSC_BARS, maxdepth=(5 if q else 6), invariants=inv))
+        for e in ((1, 3) if q else (1, 2, 3, 5)):
+            jobs.append(closed("SS_s_n%d_e%d" % (n, e), "SLOW_STOCH", n, n2=e, salpha=P3, maxdepth=(6 if q else 8), invariants=inv))
+            if n <= 3:
+                jobs.append(closed("SS_b_n%d_e%d" % (n, e), "SLOW_STOCH", n, n2=e, balpha=hb, maxdepth=(4 if q else 5), invariants=inv))
+    triples = [(f, s_, g) for f in (1, 2, 3, 5) for s_ in (1, 2, 3, 5) for g in (1, 2, 3, 5)]
+    if q:
+        fixed = [(1, 1, 1), (3, 3, 2), (5, 2, 3), (2, 5, 1), (1, 3, 3)]
+        triples = fixed + rng.sample([t for t in triples if t not in fixed], 5)
+    for (f, s_, g) in triples:
+        jobs.append(closed("PPO_%d_%d_%d" % (f, s_, g), "PPO", f, n2=s_, n3=g, salpha=P3, maxdepth=(6 if q else 7), invariants=inv))
+    obv_bars = [bar(c, c, c, v=v) for c in (1, 2, 3) for v in (0, 1, 2)]
+    jobs.append(closed("OBV", "OBV", 1, balpha=obv_bars, maxdepth=(5 if q else 6), invariants=inv))
+    # sampled periods up to 512 and long runs, on seeded scripted streams
+    for kind in OSC:
+        for rep in range(2 if q else 8):
+            n = rng.choice([6, 7, 8, 9, 10, 14, 20, 26, 50, 100, 128, 255, 256, 257, 512])
+            length = min(3 * n + 60, 900 if q else 1700)
+            c = cfg(kind, n, n2=rng.choice([1, 3, 9, n]), n3=rng.choice([1, 9]))
+            if kind in BAR_ONLY or (kind in ("FAST_STOCH", "SLOW_STOCH") and rep % 2):
+                ops = [b_op(1, b) for b in rand_bars(rng, length)]
+            else:
+                ops = [s_op(1, x) for x in stream_patterns(rng, length, 1, 30, lively=(rep % 2 == 0))]
+            jobs.append(scripted("%s_big%d_n%d" % (kind, rep, n), {1: c}, [new_op(1)] + ops, noovf=False, invariants=inv))
+        n = rng.choice([1, 2, 3, 4, 5, 7])
+        length = 9000 if q else 30000
+        if kind in BAR_ONLY:
+            ops = [b_op(1, b) for b in rand_bars(rng, length)]
+        else:
+            ops = [s_op(1, x) for x in stream_patterns(rng, length, 1, 19, lively=True)]
+        jobs.append(scripted("%s_long_n%d" % (kind, n), {1: cfg(kind, n, n2=rng.choice([1, 3]), n3=rng.choice([1, 3]))}, [new_op(1)] + ops,
+                             noovf=False, invariants=inv))
+    return {
+        "jobs": jobs, "parallel": 12,
+        "rule": "closed TaSystem models for FAST_STOCH, ROC, ER, CCI, MFI (periods 1..5 / 1..4 / 1..3) and depth-bounded exhaustive ones for "
+                "RSI (four seed/unit pairs), SLOW_STOCH, PPO (period triples), OBV; positive scalar alphabet {1,2,3}, bar alphabet of 9 valid "
+                "bars with close != (high+low)/2, repeated typical prices and volume 0/1/2; one behaviour per transition; sampled periods up to "
+                "512 and long runs on seeded scripted streams; a step is compared when the spec's condition number is <= 1e6",
+        "assumptions": COMMON_ASSUME + ["steps whose reference denominator is zero or whose condition number exceeds 1e6 are skipped and counted (they belong to C08)"],
+    }
+
+
 PLANS = {
     "C01": plan_C01,
+    "C03": plan_C03,
+    "C02": plan_C02,
 }
